@@ -40,6 +40,8 @@ type OpRes struct {
 	ForTS uint64             // lock: for-update ts used
 	// model view captured before the op (own writes): key -> value / tombstone
 	Own map[string]*string
+	// Exists: lock with existence check (no values): key -> the store's answer (keys locked before are absent)
+	Exists map[string]bool
 }
 
 // TxnHist is the recorded history of one transaction.
@@ -60,7 +62,9 @@ type TxnHist struct {
 	Buf      map[string]*string
 	Inserted map[string]bool
 	Locked   map[string]uint64 // key -> for-update ts of the successful lock
-	LockedAt map[string]uint64 // key -> event stamp at which that LockKeys call had returned
+	// LockedWithInfo: the call that locked the key asked for its value or its existence
+	LockedWithInfo map[string]bool
+	LockedAt       map[string]uint64 // key -> event stamp at which that LockKeys call had returned
 	// InsertChecked: the insert's existence check is part of the protocol for this key: always
 	// for optimistic transactions; for pessimistic ones only when a LockKeys call succeeded on the
 	// key while the buffer entry carried the presume-not-exists flag (the check travels with the lock request).
@@ -323,6 +327,7 @@ func (w *World) runTxn(p *TxnProg, h *TxnHist) {
 	h.Inserted = map[string]bool{}
 	h.Locked = map[string]uint64{}
 	h.LockedAt = map[string]uint64{}
+	h.LockedWithInfo = map[string]bool{}
 	h.InsertChecked = map[string]bool{}
 	h.InsertUncertain = map[string]bool{}
 	type stageRec struct {
@@ -331,6 +336,7 @@ func (w *World) runTxn(p *TxnProg, h *TxnHist) {
 	}
 	var stages []stageRec
 	var aggCur map[string]uint64
+	aggInfo := map[string]bool{}
 	var cp *unionstore.MemDBCheckpoint
 	var cpBuf map[string]*string
 	cpDepth := 0
@@ -458,6 +464,9 @@ func (w *World) runTxn(p *TxnProg, h *TxnHist) {
 				for k, ts := range aggCur {
 					if _, ok := h.Locked[k]; !ok {
 						h.Locked[k] = ts
+						if aggInfo[k] {
+							h.LockedWithInfo[k] = true
+						}
 					}
 				}
 				aggCur = nil
@@ -513,6 +522,8 @@ func (w *World) runTxn(p *TxnProg, h *TxnHist) {
 				lctx = kv.NewLockCtx(forTS, wait, time.Now())
 				if op.RetVals {
 					lctx.InitReturnValues(len(op.Keys))
+				} else if op.CheckExist {
+					lctx.InitCheckExistence(len(op.Keys))
 				}
 				var ks [][]byte
 				for _, k := range op.Keys {
@@ -539,16 +550,41 @@ func (w *World) runTxn(p *TxnProg, h *TxnHist) {
 					delete(h.Inserted, k)
 				}
 			} else {
+				// fair locking may grant a lock although a newer version exists ("locked with conflict"): the lock - and
+				// the value / existence the call reports - are then as of that version's commit ts, not of the for-update ts
+				if lctx.MaxLockedWithConflictTS > forTS {
+					forTS = lctx.MaxLockedWithConflictTS
+					r.ForTS = forTS
+					w.Sim.Count("probe.locked-with-conflict")
+				}
 				for _, k := range op.Keys {
 					if aggCur != nil {
 						aggCur[k] = forTS // becomes a lock of the transaction only when the stage is done
+						if op.RetVals || op.CheckExist {
+							aggInfo[k] = true
+						}
 						continue
 					}
 					if _, ok := h.Locked[k]; !ok {
 						h.Locked[k] = forTS
 						h.LockedAt[k] = s.Stamp()
+						if op.RetVals || op.CheckExist {
+							h.LockedWithInfo[k] = true
+						}
 						if h.Inserted[k] && h.Buf[k] != nil {
 							h.InsertChecked[k] = true
+						}
+					} else if h.Inserted[k] && h.Buf[k] != nil && h.LockedWithInfo[k] {
+						// the key was locked earlier by a call that learned whether it exists: the client answers the
+						// presumed-not-exists check of this call from what it remembered (no request is sent)
+						h.InsertChecked[k] = true
+					}
+				}
+				if op.CheckExist && !op.RetVals {
+					r.Exists = map[string]bool{}
+					for _, k := range op.Keys {
+						if rv, ok := lctx.Values[k]; ok && !rv.AlreadyLocked {
+							r.Exists[k] = rv.Exists
 						}
 					}
 				}
@@ -562,7 +598,10 @@ func (w *World) runTxn(p *TxnProg, h *TxnHist) {
 						if rv.AlreadyLocked {
 							continue
 						}
-						if rv.Exists || len(rv.Value) > 0 {
+						// in return-values mode the value itself says whether the key exists (values are never empty); the
+						// Exists field is only promised to callers that ask for an existence check (a lock re-used by a
+						// retried fair-locking statement reports Exists=true there whatever the key's state)
+						if len(rv.Value) > 0 {
 							r.Vals[k] = sp(string(rv.Value))
 						} else {
 							r.Vals[k] = nil
